@@ -35,6 +35,7 @@ type c10Script struct {
 	bigWrites bool // the writer goroutines write 4077-byte bodies, 12 each
 	window    int  // vnet window (back-pressure), 0 = unlimited
 	hold0     bool // the peer is configured WithHoldTime(0): no hold or keepalive timers at all
+	badCaps   bool // GetCapabilities returns a capability corebgp cannot encode (value of 300 octets): no OPEN is ever sent
 }
 
 func remoteHandshakeStay(w *world.World, r *world.Remote) {
@@ -132,6 +133,15 @@ var c10Scripts = []c10Script{
 	{name: "out-established-hold0", dial: acceptWith(remoteHandshakeStay), hold0: true},
 	{name: "in-openconfirm-hold0", passive: true, inbound: true, in: remoteOpenStall, hold0: true},
 	{name: "out-silent-hold0", dial: acceptWith(remoteSilent), hold0: true},
+	// every dial is accepted, but the plugin's capabilities cannot be encoded: each attempt ends before an OPEN is
+	// sent and the peer dials again after the idle hold time - every one of those connections must be closed
+	{name: "out-unencodable-caps", badCaps: true, dial: func(w *world.World, att int) vnet.DialOutcome {
+		return vnet.DialOutcome{Kind: vnet.DialAccept, Serve: func(c *vnet.Conn) {
+			r := w.NewRemote(c, "P1")
+			r.Drain()
+			r.Finish()
+		}}
+	}},
 }
 
 type c10Params struct {
@@ -160,6 +170,9 @@ func c10Run(p c10Params, ch vrt.Chooser, trace bool) (*world.World, *vrt.Exec, *
 		w.NW.Window = sc.window
 		w.NewServer(libIP)
 		pl := &world.Plugin{W: w, Peer: "P1", Marker: true}
+		if sc.badCaps {
+			pl.Caps = []corebgp.Capability{{Code: 200, Value: make([]byte, 300)}}
+		}
 		if sc.writers > 0 {
 			pl.OnEst = func(p *world.Plugin, s int, wr corebgp.UpdateMessageWriter) {
 				for i := 0; i < sc.writers; i++ {
